@@ -389,6 +389,21 @@ func c14FieldIDMap(r *rng) {
 			t.z(*(*int64)(p))
 		}
 		t.i(m.Size())
+		// Get of a negative id returns nil (fix 5273bb1), it must not index the slice
+		negs := []int32{-1, -2, -32768, -65536, -2147483648, -1 - int32(r.intn(1000))}
+		t.i(len(negs))
+		for _, id := range negs {
+			v := int64(0)
+			if ok, _ := noPanic(func() {
+				if p := m.Get(id); p != nil {
+					v = *(*int64)(p)
+				}
+			}); !ok {
+				v = -3
+			}
+			t.z(int64(id))
+			t.z(v)
+		}
 	}
 	out.emit(1401, t...)
 }
@@ -461,8 +476,6 @@ func c14FieldNameMap(r *rng) {
 	out.emit(1402, t...)
 }
 
-var c14decoyVal = make([]int64, 0, 1<<16)
-
 // ---- 1403: caching.TrieTree / caching.HashMap directly ---------------------------------------------------
 
 func c14Direct(r *rng) {
@@ -488,31 +501,6 @@ func c14Direct(r *rng) {
 		for i, k := range keys {
 			vals[i] = int64(i + 1)
 			tr.Set(string(k), unsafe.Pointer(&vals[i]))
-		}
-		// deterministic witness of the native off-by-one (finding 1403): re-home the root index into an array that is followed
-		// by a foreign node holding a probe key whose bucket equals len(index); the Go Get never looks at it
-		if np == 1 && len(tr.Index) > 0 && len(tr.Index) < 255 && r.chance(40) {
-			l := len(tr.Index)
-			var c int = -1
-			for b := 0; b < 256; b++ {
-				if int(caching.VerifAscii2Int(byte(b))) == l {
-					c = b
-				}
-			}
-			if c >= 0 {
-				decoy := make([]byte, ps[0]+1)
-				for i := range decoy {
-					decoy[i] = 'q'
-				}
-				decoy[ps[0]] = byte(c)
-				big := make([]caching.TrieNode, l+1)
-				copy(big, tr.Index)
-				c14decoyVal = append(c14decoyVal, 777)
-				other := []caching.Pair{{Val: unsafe.Pointer(&c14decoyVal[len(c14decoyVal)-1]), Key: string(decoy)}}
-				big[l].Leaves = &other
-				tr.Index = big[:l:l]
-				probes = append(probes, decoy)
-			}
 		}
 		t.i(0)
 		t.i(np)
@@ -695,8 +683,8 @@ func c14Sweep(r *rng, desc *thrift.TypeDescriptor, mapway int, extra [][]byte, c
 			}
 			head.b(p)
 			head.z(got)
-			// the native trie_get tests `j > len` instead of `j >= len`: this probe reads one TrieNode past the index array
-			// (garbage or a fault, depending on the neighbouring heap object)
+			// the native trie_get tests `j > len` instead of `j >= len`: this probe reads index[len], which is the spare zeroed node
+			// that TrieTree.Set keeps behind every index slice since fix 0d2d3ac (before: garbage or a fault)
 			head.z(nativeLookup(desc, p))
 		}
 		out.emit(1407, head...)
